@@ -134,22 +134,25 @@ LiftExpect(G) ==
       IN [w |-> <<G.rules[r].w, RMul(G.rules[r].w, <<nt, 1>>)>>, h |-> G.rules[r].h, b |-> b]]]
 ExpLenOK(e) == REq(TreeSum("Expect", LiftExpect(e.G))[e.G.S][2], e.res)
 
-InDomain(e) ==
+InDomainIn(e) ==
   CASE e.op \in {"parse"} -> InsideExact(e.sr, e.G)
     [] e.op \in {"prefix", "treesum", "pnext", "ntw", "lmcall", "explen"} ->
           InsideExact(e.sr, e.G) /\ TreeSumExact(e.sr, e.G)
-    [] e.op \in {"transform", "derivative", "addeos"} ->
-          InsideExact(e.sr, e.in) /\ InsideExact(e.sr, e.out)
-    [] e.op \in {"prefixgrammar", "normalize"} ->
-          InsideExact(e.sr, e.in) /\ TreeSumExact(e.sr, e.in) /\ InsideExact(e.sr, e.out)
-          /\ (e.op = "normalize" => TreeSumExact(e.sr, e.out))
+    [] e.op \in {"transform", "derivative", "addeos"} -> InsideExact(e.sr, e.in)
+    [] e.op \in {"prefixgrammar", "normalize"} -> InsideExact(e.sr, e.in) /\ TreeSumExact(e.sr, e.in)
     [] e.op = "lang" -> InsideExact(e.sr, e.G)
+    [] OTHER -> TRUE
+(* the grammar the CODE produced left the exact domain (a unary / nullable cycle over the rationals): not judged *)
+InDomainOut(e) ==
+  CASE e.op \in {"transform", "derivative", "addeos", "prefixgrammar"} -> InsideExact(e.sr, e.out)
+    [] e.op = "normalize" -> InsideExact(e.sr, e.out) /\ TreeSumExact(e.sr, e.out)
     [] OTHER -> TRUE
 
 (* the set of failed clause names of an event *)
 Failed(e) ==
   IF Has(e, "exc") THEN {"raised"}
-  ELSE IF ~InDomain(e) THEN {"OUTDOM"}
+  ELSE IF ~InDomainIn(e) THEN {"OUTDOM"}
+  ELSE IF ~InDomainOut(e) THEN {"OUTSKIP"}
   ELSE
   CASE e.op = "parse" -> IF ParseOK(e) THEN {} ELSE {"weight"}
     [] e.op = "prefix" -> IF PrefixOK(e) THEN {} ELSE {"prefixweight"}
